@@ -26,7 +26,7 @@ CORPUS = [  # (cfg, [sources...]) — past crashes and their neighbours; runs fi
     ("-", ["a=[1]; a.push(a); b=[1]; b.push(b); a==b"]), ("-", ["dd={}; dd.x=dd; ee={}; ee.x=ee; dd==ee"]),
     ("-", ["2d6+3d6", "1 +", "(", "2d6"]), ("-", ["[1,2,3].sum()", "[x,2]"]), ("P200", ["1" + "+1" * 150]),
     ("-", ["^st力量-'a'"]), ("-", ["^st力量+[1]"]), ("-", ["[(0-9223372036854775807-1)..9223372036854775807]"]),
-    ("-", ["func f(){f()}; f()"]), ("-", ["&c = c; c"]), ("-", ["toStr(toStr)"]), ("-", ["x = {}; x.__proto__ = x; x.q"]),
+    ("-", ["func f(){f()}; f()"]), ("-", ["&c = d; c"]), ("-", ["func f(){ 2d }; f()"]), ("-", ["&c = d劣势; c; c"]), ("-", ["func f(){ d优势 + 3d }; f(); f()"]), ("-", ["&c = c; c"]), ("-", ["toStr(toStr)"]), ("-", ["x = {}; x.__proto__ = x; x.q"]),
 ]
 
 
